@@ -194,6 +194,7 @@ pub struct BlobCfg {
     pub lz4: bool,
 }
 
+#[derive(Clone)]
 pub struct Shared {
     pub cache: Arc<Cache>,
     pub fd: Option<Arc<DescriptorTable>>,
